@@ -13,6 +13,8 @@ from typing import Any, Dict, List, Optional
 
 VERIF = Path(__file__).resolve().parent.parent
 REPO = Path(os.environ.get("VERIF_REPO", "/repo"))
+# self-test runs analyse scratch copies: their evidence / replay files must not overwrite the real ones
+OUT = Path(os.environ["VERIF_OUT"]) if os.environ.get("VERIF_OUT") else VERIF
 
 
 class AnalysisError(Exception):
@@ -142,8 +144,8 @@ class Check:
                 )
             else:
                 new_keys.append(key)
-        replay_dir = VERIF / "replay"
-        replay_dir.mkdir(exist_ok=True)
+        replay_dir = OUT / "replay"
+        replay_dir.mkdir(parents=True, exist_ok=True)
         for old in replay_dir.glob(f"{self.pid}-*.json"):
             old.unlink()
         for i, key in enumerate(new_keys):
@@ -222,14 +224,14 @@ class Check:
             "wall_s": round(time.time() - self.t0, 3),
             "violations": len(new_keys),
         }
-        d = VERIF / "evidence"
-        d.mkdir(exist_ok=True)
+        d = OUT / "evidence"
+        d.mkdir(parents=True, exist_ok=True)
         (d / f"{self.pid}.json").write_text(json.dumps(ev, indent=1, default=str))
 
 
 def write_error_evidence(pid: str, tier: str, seed: int, msg: str, t0: float) -> None:
-    d = VERIF / "evidence"
-    d.mkdir(exist_ok=True)
+    d = OUT / "evidence"
+    d.mkdir(parents=True, exist_ok=True)
     ev = {
         "property_id": pid, "tier": tier, "seed": seed, "level": "other",
         "coverage": {"explanation": "ANALYSIS-ERROR: " + msg, "evaluations": 0, "distinct_nontrivial": 0},
